@@ -24,6 +24,7 @@ import pickle
 import random as _real_random
 import struct
 import sys
+import warnings
 
 import ipv8.messaging.anonymization.community as _com
 from ipv8.messaging.anonymization.community import TunnelCommunity
@@ -41,6 +42,10 @@ from .. import core
 from ..tunnelworld import EXIT_BT, RELAY, TunnelWorld
 
 LEVEL = "model_checking"
+
+# worlds are thrown away with tasks still scheduled (that is the point of a bounded history); do not let the
+# interpreter report each never-started coroutine on stderr
+warnings.filterwarnings("ignore", category=RuntimeWarning, message="coroutine .* was never awaited")
 
 
 # ---------------------------------------------------------------------------------------------------------------------
@@ -916,8 +921,9 @@ def _run(ctx: core.Ctx) -> core.Report:
                           "abstract_states": len(acc.states), "events_by_kind": dict(sorted(acc.by_kind.items())),
                           "histories_ended_by_violation": acc.pruned_violating,
                           "ids": [{"origin": p.origin, "path": p.path, "link_ids": p.ids} for p in plans]})
-        if acc.last is not None:
-            samples.append({"k": k, "history": acc.last[1]})
+        for item in (acc.first, acc.last):
+            if item is not None and {"k": k, "history": item[1]} not in samples:
+                samples.append({"k": k, "history": item[1]})
     cov = {
         "states": len(states),
         "transitions": transitions,
